@@ -4,6 +4,7 @@ CONSTANTS
   MaxTs = 2
   MaxCrashes = 2
   Proposer = {0}
+  ShortTornUndetected = TRUE
   Weak_ReleaseBeforeSave = FALSE
   Weak_CheckHRSIgnoresStep = FALSE
   Weak_SameHRSResigns = FALSE
@@ -13,6 +14,6 @@ CONSTANTS
 INIT SCInit
 NEXT SCNext
 INVARIANTS NoConflictingRelease FlushBeforeSign OwnDurableBeforeHandled MemNotBehind ReleasedSigOverMsg
-PROPERTIES PersistBeforeRelease HRSMonotone NoSelfLockout
+PROPERTIES PersistBeforeRelease HRSMonotone
 VIEW SCView
 CHECK_DEADLOCK FALSE
